@@ -138,7 +138,7 @@ def set_git_template(tpl):
     _GIT_TPL = tpl
 
 
-def run_batch(scns, timeout=60):
+def run_batch(scns, timeout=600):
     return C.fork_map(run_one, scns, timeout=timeout)
 
 
